@@ -171,7 +171,24 @@ fn serve_page(w: &World, txs: &BTreeMap<u64, bitcoin::Transaction>, pg: &Value, 
               pages: &mut Vec<Value>, at: u64, first: bool) {
     let a = if pg["address"].as_str() == Some("B") { 8 } else { 7 };
     let limit = pg["limit"].as_u64();
-    let filter = if first {
+    let filter = if first && pg.get("token").is_some() {
+        // an arbitrary page token: tip block id (or an unknown hash), height relative to the current stable height, outpoint
+        let tk = &pg["token"];
+        let mut bytes: Vec<u8> = match tk["tip"].as_u64().and_then(|id| w.blocks.get(&id)) {
+            Some(b) => b.block_hash().to_vec(),
+            None => vec![0xab; 32],
+        };
+        let sh = with_state(|s| s.stable_height()) as i64;
+        let h = (sh + tk["height_rel"].as_i64().unwrap_or(0)).clamp(0, u32::MAX as i64) as u32;
+        bytes.extend(h.to_be_bytes().iter().map(|b| b ^ 255));
+        use bitcoin::hashes::Hash;
+        match tk["tx"].as_u64().and_then(|l| txs.get(&l)) {
+            Some(t) => bytes.extend_from_slice(t.compute_txid().as_raw_hash().as_byte_array()),
+            None => bytes.extend_from_slice(&[0xcd; 32]),
+        }
+        bytes.extend_from_slice(&(tk["vout"].as_u64().unwrap_or(0) as u32).to_le_bytes());
+        Some(ic_btc_interface::UtxosFilterInRequest::Page(serde_bytes::ByteBuf::from(bytes)))
+    } else if first {
         pg["min_confirmations"].as_u64().map(|c| ic_btc_interface::UtxosFilterInRequest::MinConfirmations(c as u32))
     } else {
         Some(ic_btc_interface::UtxosFilterInRequest::Page(serde_bytes::ByteBuf::from(next_page.clone().unwrap())))
@@ -450,7 +467,14 @@ fn run_op(w: &mut World, op: &Value) -> Value {
                         .build()
                 }
             };
-            let txdata: Vec<bitcoin::Transaction> = labels.iter().map(|l| mk(*l)).collect();
+            // optional witness variant per transaction: k > 0 attaches the witness [k] (same txid, another wtxid)
+            let txdata: Vec<bitcoin::Transaction> = labels.iter().enumerate().map(|(i, l)| {
+                let mut t = mk(*l);
+                if let Some(k) = op["witness"][i].as_u64() {
+                    if k > 0 && !t.input.is_empty() { t.input[0].witness = bitcoin::Witness::from_slice(&[vec![k as u8]]); }
+                }
+                t
+            }).collect();
             let committed: Vec<bitcoin::Transaction> = match op["merkle"].as_str() {
                 Some("of_prefix") => txdata[..op["prefix"].as_u64().unwrap() as usize].to_vec(),
                 _ => txdata.clone(),
